@@ -113,6 +113,11 @@ impl Window {
     }
 }
 
+/// Live heap bytes right now.
+pub fn live_now() -> usize {
+    LIVE.load(Relaxed)
+}
+
 pub fn set_refuse_above(limit: usize) {
     REFUSE_ABOVE.store(limit, Relaxed);
 }
